@@ -272,7 +272,41 @@ func (a *c15alias) sinks() {
 // c15valueSetters: the Set methods of the slice-valued flag.Value implementations of package config (pointer receiver
 // whose element is a named slice type, or a struct that keeps the slice / a pointer to it in a field).
 func c15valueSetters(c *Ctx) []*ssa.Function {
-	return c.fnsWhere("config", func(f *ssa.Function) bool {
+	pred := c15isSliceSetter
+	out := c.fnsWhere("config", pred)
+	// methods of generic types (sliceValue[T]) are not among the functions of the package: their parameterised bodies
+	have := map[*ssa.Function]bool{}
+	for _, f := range out {
+		have[f] = true
+	}
+	if sp := c.spkg("config"); sp != nil {
+		var names []string
+		for n := range sp.Members {
+			names = append(names, n)
+		}
+		sort.Strings(names)
+		for _, n := range names {
+			tm, ok := sp.Members[n].(*ssa.Type)
+			if !ok {
+				continue
+			}
+			nt, ok := tm.Type().(*types.Named)
+			if !ok || nt.TypeParams().Len() == 0 {
+				continue
+			}
+			for k := 0; k < nt.NumMethods(); k++ {
+				if f := c.Prog.FuncValue(nt.Method(k)); f != nil && !have[f] && pred(f) {
+					have[f] = true
+					out = append(out, f)
+				}
+			}
+		}
+	}
+	return out
+}
+
+func c15isSliceSetter(f *ssa.Function) bool {
+	{
 		sig := f.Signature
 		if f.Name() != "Set" || sig.Recv() == nil || sig.Params().Len() != 1 || sig.Results().Len() != 1 || len(f.Params) != 2 || len(f.Blocks) == 0 {
 			return false
@@ -298,7 +332,7 @@ func c15valueSetters(c *Ctx) []*ssa.Function {
 			}
 		}
 		return false
-	})
+	}
 }
 
 // c15fresh: v is a slice nobody else has: nil, a literal, make, an append onto / a clone of such a value.
@@ -349,6 +383,31 @@ func c15ownsStorage(c *Ctx, recvT types.Type) bool {
 			}
 			nCtor++
 			same := samePath(ct.X)
+			nStore := 0
+			eachInstr(f, func(j ssa.Instruction) {
+				if st, ok := j.(*ssa.Store); ok && same(st.Addr) {
+					nStore++
+					if !c15fresh(st.Val, 0) {
+						owned = false
+					}
+				}
+			})
+			if nStore == 0 {
+				owned = false
+			}
+		})
+		// a struct-typed flag.Value built in place (&T{dst: p}): the variable is the pointer the literal keeps
+		eachInstr(f, func(i ssa.Instruction) {
+			a, ok := i.(*ssa.Alloc)
+			if !ok || !types.Identical(a.Type(), recvT) {
+				return
+			}
+			p := c15keptPointer(a)
+			if p == nil {
+				return
+			}
+			nCtor++
+			same := samePath(p)
 			nStore := 0
 			eachInstr(f, func(j ssa.Instruction) {
 				if st, ok := j.(*ssa.Store); ok && same(st.Addr) {
